@@ -90,7 +90,8 @@ def specOf (r : Req) (impl : String) : String :=
   match parseImpl impl with
   | none => specFail "unclassified" ("unparsable-impl-output " ++ impl)
   | some im =>
-    if anyErr im then specFail "unclassified" "operation-returned-error"
+    if im.dead.isSome then "na"
+    else if anyErr im then specFail "unclassified" "operation-returned-error"
     else if !queriesOk r im then specFail "unclassified" "query-differs-from-snapshot-at-its-step"
     else
       let qs := buildQueues r im
